@@ -11,7 +11,7 @@ ENGINE_FUNCS = [
 # a defect in the sibling bookkeeping is reported against C05 / C06 and not against C03 / C04 / C07 / C08.
 # the case-folding view of C04 (J6, its two transition clauses and the three string lemmas) is a group of its own: it is the
 # only part of the engine proof that needs string reasoning and is checked under C04 only
-LOWER_VIEW = ("J6", "E2-original", "E2-context-value", "lower-commutes-with-slice", "slice-of-slice", "full-slice")
+LOWER_VIEW = ("J6", "E2-original", "E2-context-value", "E2-parent-lower-view", "lower-commutes-with-slice", "slice-of-slice", "full-slice")
 CORE_ONLY = ("J5", "E3", "E4", "DABS") + LOWER_VIEW
 ENGINE_TRUSTED = [
     "A-det: decoders and trusted library calls are deterministic functions of their arguments",
